@@ -12,12 +12,24 @@ namespace MpVerif.C11
 
 /-! ## option table -/
 
-inductive Kind | int | dbl | str | flag
+inductive Val
+  | int (v : Int)
+  | dbl (text : Bytes)   -- the text `strtod` consumed; the stored double is `strtod(text)`
+  | str (b : Bytes)
+  | flag (b : Bool)
+  deriving DecidableEq, Repr
+
+
+inductive Kind
+  | int | dbl | str | flag
+  | optfile   -- `tech:optionfile`: a string option whose setter (`UseOptionFile`) reads and parses the named file
   deriving DecidableEq, Repr
 
 /-- validation done by an integer option's setter (`SetObjNo`, `BoolOption::SetValue` style):
 the setter throws `InvalidOptionValue` when the check fails. -/
-inductive IntChk | any | nonneg | bool01
+inductive IntChk
+  | any | nonneg | bool01
+  | mask15    -- `SetWantSol`: throws if `value & ~0xf`
   deriving DecidableEq, Repr
 
 structure OptDecl where
@@ -26,6 +38,9 @@ structure OptDecl where
   syns : List Bytes   -- remaining words: "inline synonyms"
   kind : Kind
   chk : IntChk := .any
+  isList : Bool := false          -- `AddListOption`: the setter appends, the getter returns the last element
+  dflt : Option Val := none       -- what the getter shows before any assignment, if not the type's default
+  echoAs : Option Bytes := none   -- out-of-line synonym (`SolverOptionSynonym`): `echo()` is "syn (real)"
   deriving Repr
 
 /-- the option set in iteration order (`std::set` ordered by `strcasecmp` of the names). -/
@@ -91,18 +106,12 @@ def wcMatch (hts : List (Bytes × Bytes)) (key : Bytes) : Option Bytes :=
 
 /-! ## state -/
 
-inductive Val
-  | int (v : Int)
-  | dbl (text : Bytes)   -- the text `strtod` consumed; the stored double is `strtod(text)`
-  | str (b : Bytes)
-  | flag (b : Bool)
-  deriving DecidableEq, Repr
-
 def Kind.default : Kind → Val
   | .int => .int 0
   | .dbl => .dbl []
   | .str => .str []
   | .flag => .flag false
+  | .optfile => .str []
 
 structure Slot where
   val : Val                      -- value of a plain option
@@ -114,6 +123,8 @@ structure Slot where
 inductive Err
   | unknown (name : Bytes)       -- HandleUnknownOption
   | flagArg (name : Bytes)       -- "Option ... doesn't accept an argument"
+  | fileError (name : Bytes)     -- "Failed to read option file" (thrown, not reported through the handler)
+  | fileNesting (name : Bytes)   -- "Option files nested too deeply (recursive inclusion?)" (thrown; ampl/mp 5ace2c7)
   deriving DecidableEq, Repr
 
 structure St where
@@ -127,9 +138,16 @@ def St.slot (st : St) (i : Nat) : Slot := st.slots.getD i { val := .flag false }
 def St.modify (st : St) (i : Nat) (f : Slot → Slot) : St :=
   { st with slots := st.slots.set i (f (st.slot i)) }
 
-/-- what the getter returns: for a wildcard option the last value recorded for the current body. -/
+/-- the option keeps a record of assignments (wildcard option with accessor functions keyed by the
+key body; list option) instead of a single variable -/
+def OptDecl.logged (d : OptDecl) : Bool := (d.isWildcard && d.kind != .flag) || d.isList
+
+/-- what the getter returns: for a wildcard option the last value recorded for the current body,
+for a list option the last element.  (`ListOption::GetValue` on an empty list is `value_.back()`
+on an empty vector, undefined behaviour; the model shows the type's default, the generators never
+query a list option before assigning it.) -/
 def getValue (d : OptDecl) (sl : Slot) : Val :=
-  if d.isWildcard then
+  if d.logged then
     match sl.log.find? (fun e => e.1 == sl.wcBody) with
     | some e => e.2
     | none => d.kind.default
@@ -138,11 +156,13 @@ def getValue (d : OptDecl) (sl : Slot) : Val :=
 /-- `SetValue` through the option's setter.  (A flag is a `StoredOption<bool>`: it writes its
 variable whatever the name pattern.) -/
 def setValue (d : OptDecl) (v : Val) (sl : Slot) : Slot :=
-  if d.isWildcard && d.kind != .flag then { sl with log := (sl.wcBody, v) :: sl.log } else { sl with val := v }
+  if d.logged then { sl with log := (sl.wcBody, v) :: sl.log } else { sl with val := v }
 
 /-- `echo()`: the name, or head ++ last body ++ tail of the name pattern for a wildcard option. -/
 def echoName (d : OptDecl) (sl : Slot) : Bytes :=
-  if d.isWildcard then (wcSplit d.name).1 ++ sl.wcBody ++ (wcSplit d.name).2 else d.name
+  match d.echoAs with
+  | some e => e
+  | none => if d.isWildcard then (wcSplit d.name).1 ++ sl.wcBody ++ (wcSplit d.name).2 else d.name
 
 def doEcho (noEcho : Bool) (d : OptDecl) (st : St) : St :=
   if noEcho then st
@@ -193,6 +213,9 @@ structure Cfg where
   noEcho : Bool      -- flags & NO_OPTION_ECHO
   cmdLine : Bool     -- flags & FROM_COMMAND_LINE
   throwing : Bool    -- the installed ErrorHandler throws (BasicSolver's default one does)
+  /-- `UseOptionFile(value)`: `save` is the assignment `option_file_save_ = value`, which happens
+  after the nesting test and before the file is read -/
+  onFile : Bytes → (St → St) → St → Outcome × St := fun _ _ st => (.threwError, st)
 
 inductive Step
   | done                         -- `*s == 0` after blanks: return
@@ -208,6 +231,7 @@ def isQuery (s : Bytes) : Bool :=
 def intChkOk : IntChk → Int → Bool
   | .any, _ => true
   | .nonneg, v => decide (0 ≤ v)
+  | .mask15, v => decide (0 ≤ v ∧ v ≤ 15)
   | .bool01, v => decide (v = 0 ∨ v = 1)
 
 def reportError (cfg : Cfg) (e : Err) (s : Bytes) (st : St) : Step :=
@@ -228,6 +252,11 @@ def parseValue (cfg : Cfg) (d : OptDecl) (s : Bytes) (st : St) : Step :=
   | .str =>
     let (v, r) := parseStrVal cfg.cmdLine s
     .cont r (doEcho cfg.noEcho d (st.modify d.id (setValue d (.str v))))
+  | .optfile =>
+    let (v, r) := parseStrVal cfg.cmdLine s
+    match cfg.onFile v (fun s0 => s0.modify d.id (setValue d (.str v))) st with
+    | (.ok, st2) => .cont r (doEcho cfg.noEcho d st2)
+    | (o, st2) => .stop o st2
 
 /-- after the leading blanks: the name token, and the rest after blanks, an optional `=`, blanks. -/
 def nameOf (s1 : Bytes) : Bytes := s1.takeWhile isNameChar
@@ -289,6 +318,10 @@ theorem parseValue_progress {cfg : Cfg} {d : OptDecl} {s s' : Bytes} {st st' : S
     · simp at h
   · simp at h; rw [← h.1]; exact parseDbl_length_le s
   · simp at h; rw [← h.1]; exact parseStrVal_length_le _ s
+  · simp only at h
+    split at h
+    · simp at h; rw [← h.1]; exact parseStrVal_length_le _ s
+    · simp at h
 
 theorem reportError_progress {cfg : Cfg} {e : Err} {s s' : Bytes} {st st' : St}
     (h : reportError cfg e s st = .cont s' st') : s' = s := by
@@ -376,6 +409,7 @@ structure Call where
   noEcho : Bool
   cmdLineFlag : Bool   -- caller passed FROM_COMMAND_LINE in `flags`
   throwing : Bool
+  files : List (Bytes × Bytes) := []   -- the file system seen by `tech:optionfile`: name ↦ content
 
 /-- parse a list of strings one after the other, stopping at the first exception. -/
 def parseMany (cfg : Cfg) : List Bytes → St → Outcome × St
@@ -395,18 +429,92 @@ def envSources (c : Call) : List Bytes :=
             | none => (getenv c.env (c.solverName ++ suffixOptions)).toList
   s1 ++ s2
 
+/-- the lines of a text (separator `\n`) -/
+def splitLines : Bytes → List Bytes
+  | [] => [[]]
+  | c :: r =>
+    if c.toNat == 10 then [] :: splitLines r
+    else match splitLines r with
+      | [] => [[c]]
+      | l :: ls => (c :: l) :: ls
+
+/-- `ProcessLines_AvoidComments`: the lines handed to the parser — non-empty lines from their first
+non-blank character on, unless that character is `#` (or the line is blank) -/
+def fileLines (content : Bytes) : List Bytes :=
+  (splitLines content).filterMap (fun l =>
+    let t := l.dropWhile isSpace
+    match t with
+    | [] => none
+    | c :: _ => if c.toNat == 35 then none else some t)
+
+/-- `UseOptionFile` with `n` more nesting levels allowed (ampl/mp 5ace2c7: beyond 32 nested option
+files `mp::Error` "nested too deeply" is thrown, before the name is saved; so a file that names
+itself ends with an error).  A missing file throws `mp::Error`; the lines are parsed with
+`option_flag_save_`, i.e. the flags `ParseOptions` was called with (never FROM_COMMAND_LINE added
+for argv). -/
+def fileLevel (c : Call) : Nat → Bytes → (St → St) → St → Outcome × St
+  | 0 => fun name _ st => (.threwError, { st with errs := .fileNesting name :: st.errs })
+  | n + 1 => fun name save st0 =>
+    let st := save st0
+    match c.files.find? (fun f => f.1 == name) with
+    | none => (.threwError, { st with errs := .fileError name :: st.errs })
+    | some f =>
+      parseMany { table := c.table, noEcho := c.noEcho, cmdLine := c.cmdLineFlag, throwing := c.throwing,
+                  onFile := fileLevel c n } (fileLines f.2) st
+
+/-- `if (nesting > 32) MP_RAISE(...)` -/
+def maxFileDepth : Nat := 32
+
 /-- `BasicSolver::ParseOptions(argv, flags)`; result: outcome, final state
 (`has_errors_` was reset: the return value is `errs.isEmpty`). -/
+def Call.cfgEnv (c : Call) : Cfg :=
+  { table := c.table, noEcho := c.noEcho, cmdLine := c.cmdLineFlag, throwing := c.throwing,
+    onFile := fileLevel c maxFileDepth }
+
+/-- for argv: `flags |= FROM_COMMAND_LINE` -/
+def Call.cfgArg (c : Call) : Cfg := { c.cfgEnv with cmdLine := true }
+
 def parseOptions (c : Call) (st : St) : Outcome × St :=
-  let cfgEnv : Cfg := { table := c.table, noEcho := c.noEcho, cmdLine := c.cmdLineFlag, throwing := c.throwing }
-  let cfgArg : Cfg := { cfgEnv with cmdLine := true }
-  match parseMany cfgEnv (envSources c) { st with errs := [] } with
-  | (.ok, st1) => parseMany cfgArg (c.argv.getD []) st1
+  match parseMany c.cfgEnv (envSources c) { st with errs := [] } with
+  | (.ok, st1) => parseMany c.cfgArg (c.argv.getD []) st1
   | r => r
+
+/-! ## the standard options of `BasicSolver::InitMetaInfoAndOptions(name, long_name, date, flags)` -/
+
+def bs (s : String) : Bytes := s.toUTF8.toList
+
+/-- MULTIPLE_SOL = 1, MULTIPLE_OBJ = 2.  Slot ids 0..8 are reserved for them. -/
+def stdDecls (flags : Nat) : List OptDecl :=
+  [ { id := 0, name := bs "tech:version", syns := [bs "version"], kind := .flag },
+    { id := 1, name := bs "tech:optionfile", syns := [bs "optionfile", bs "option:file"], kind := .optfile },
+    { id := 2, name := bs "tech:wantsol", syns := [bs "wantsol"], kind := .int, chk := .mask15 },
+    { id := 3, name := bs "obj:no", syns := [bs "objno"], kind := .int, chk := .nonneg, dflt := some (.int 1) },
+    { id := 4, name := bs "tech:debug", syns := [bs "debug"], kind := .int, chk := .bool01 } ] ++
+  (if flags / 2 % 2 == 1 then [{ id := 5, name := bs "obj:multi", syns := [bs "multiobj"], kind := .int, chk := .bool01 }] else []) ++
+  [ { id := 6, name := bs "tech:timing", syns := [bs "timing"], kind := .int, chk := .bool01 } ] ++
+  (if flags % 2 == 1 then
+    [ { id := 7, name := bs "sol:count", syns := [bs "countsolutions"], kind := .int, chk := .bool01 },
+      { id := 8, name := bs "sol:stub", syns := [bs "solstub", bs "solutionstub"], kind := .str } ] else [])
+
+/-- number of `Print` calls of `ShowVersion()` at the end of `ParseOptions` if the `version` flag was
+set during this call: "name (sysinfo)", ", driver(date)" if date > 0 (harness: bit 4 of `flags` = date 0),
+", MP(date)", the licence text if any (bit 8 = a licence text is set); no external libraries -/
+def versionPrints (flags : Nat) (st : St) : Nat :=
+  match (st.slot 0).val with
+  | .flag true => 2 + (if flags / 4 % 2 == 1 then 0 else 1) + (if flags / 8 % 2 == 1 then 1 else 0)
+  | _ => 0
 
 /-- a solver object right after construction: the declared options were added one by one. -/
 def buildTable (decls : List OptDecl) : Table := decls.foldl addOption []
 
-def initState (decls : List OptDecl) : St := { slots := decls.map (fun d => { val := d.kind.default }) }
+/-- value slots by id; a declared default (`obj:no` shows 1 before it is set) overrides the type's -/
+def initSlots (n : Nat) (decls : List OptDecl) : List Slot :=
+  (List.range n).map (fun i =>
+    match decls.find? (fun d => d.id == i) with
+    | some d => { val := (d.dflt.getD d.kind.default) }
+    | none => { val := .flag false })
+
+def initState (decls : List OptDecl) : St :=
+  { slots := initSlots ((decls.map (·.id)).foldl max 0 + 1) decls }
 
 end MpVerif.C11
